@@ -966,11 +966,23 @@ def r26(ctx: Ctx) -> RuleReport:
                         env[st.targets[0].id] = _sym(ctx, fi, st.value, env, b)
                 cases.append((norm(ifs[0].test), env, pol))
         else:
-            env = {}
+            # first = [br for br in b[:1] if br[0] == '/']: the leading branch when it is the concept branch, nothing otherwise
+            filt = None
             for st in fi.node.body:
-                if isinstance(st, ast.Assign) and isinstance(st.targets[0], ast.Name):
-                    env[st.targets[0].id] = _sym(ctx, fi, st.value, env, b)
-            cases.append(('True', env, True))
+                if isinstance(st, ast.Assign) and isinstance(st.targets[0], ast.Name) and isinstance(st.value, ast.ListComp) and len(st.value.generators) == 1:
+                    g_ = st.value.generators[0]
+                    if isinstance(g_.target, ast.Name) and norm(st.value.elt) == g_.target.id and len(g_.ifs) == 1 and norm(g_.iter) in (f'{b}[:1]', f'{b}[0:1]') \
+                            and norm(g_.ifs[0]) in (f"{g_.target.id}[0] == '/'", f"'/' == {g_.target.id}[0]"):
+                        filt = st
+            for pol_ in ((True, False) if filt is not None else (None,)):
+                env = {}
+                for st in fi.node.body:
+                    if isinstance(st, ast.Assign) and isinstance(st.targets[0], ast.Name):
+                        if st is filt:
+                            env[st.targets[0].id] = ('slice', 0, 1) if pol_ else ('empty',)
+                        else:
+                            env[st.targets[0].id] = _sym(ctx, fi, st.value, env, b)
+                cases.append(('True', env, True) if filt is None else (f"{b} and {b}[0][0] == '/'", env, pol_))
         for test, env, pol in cases:
             v = _sym(ctx, fi, store.value, env, b)
             key = f'penman.layout:_rearrange: stored value when `{test}` is {pol}'
@@ -986,6 +998,11 @@ def r26(ctx: Ctx) -> RuleReport:
             elif v[0] == 'sorted' and v[1] == ('slice', 0, None):
                 good, k = True, 0
             msg = f'{v}'
+            if v[0] == 'concat' and v[1] == ('empty',) and v[2][0] == 'sorted' and v[2][1][0] == 'slice' and isinstance(v[2][1][1], int) and v[2][1][1] > 0 and v[2][1][2] is None:
+                msg = (f'only the branches from position {v[2][1][1]} on are stored (sorted): the first {v[2][1][1]} branch(es) of a node without a leading concept branch are '
+                       f'neither kept nor sorted - they are dropped from the tree together with everything below them, so an ordering option removes triples')
+            if v[0] == 'sorted' and v[1][0] == 'slice' and isinstance(v[1][1], int) and v[1][1] > 0 and v[1][2] is None:
+                msg = (f'only the branches from position {v[1][1]} on are stored (sorted): the first {v[1][1]} branch(es) of a node without a leading concept branch are dropped')
             if good and k:
                 # keeping k leading branches unsorted is only right when they are the concept branch
                 concept = pol and "[0][0] == '/'" in test and k == 1
@@ -1956,4 +1973,92 @@ def r136(ctx: Ctx) -> RuleReport:
                       f'their old branch order although the key asks for another one')
     else:
         rep.ok(key, fi.loc(rec_loops[0]))
+    return rep
+
+
+# ---------------------------------------------------------------------------------------------
+MODEL_ROLE_PREDICATES = ('is_role_inverted', 'invert_role', 'has_role', 'canonicalize_role', 'is_role_reifiable')
+
+
+def _branch_role_names(fi: FuncInfo, loop_or_gen) -> Set[str]:
+    """the name bound to the ROLE of a tree branch by `for role, target in <branches>` / `for path, (role, target) in t.walk()`"""
+    it, tg = loop_or_gen.iter, loop_or_gen.target
+    if isinstance(it, ast.Call) and isinstance(it.func, ast.Attribute) and it.func.attr == 'walk' and not it.args:
+        # (path, branch)
+        if isinstance(tg, ast.Tuple) and len(tg.elts) == 2 and isinstance(tg.elts[1], ast.Tuple) and len(tg.elts[1].elts) == 2 and isinstance(tg.elts[1].elts[0], ast.Name):
+            return {tg.elts[1].elts[0].id}
+        return set()
+    branches = set()
+    for n in walk_local(fi.node):
+        if isinstance(n, ast.Assign) and isinstance(n.targets[0], ast.Tuple) and len(n.targets[0].elts) == 2 and isinstance(n.value, ast.Name) and n.value.id in fi.params \
+                and isinstance(n.targets[0].elts[1], ast.Name):
+            branches.add(n.targets[0].elts[1].id)                 # var, edges = node
+    if ((isinstance(it, ast.Name) and it.id in branches) or (isinstance(it, ast.Subscript) and isinstance(it.value, ast.Name) and it.value.id in fi.params
+                                                               and try_fold(it.slice) == (True, 1))) \
+            and isinstance(tg, ast.Tuple) and len(tg.elts) == 2 and isinstance(tg.elts[0], ast.Name):
+        return {tg.elts[0].id}
+    return set()
+
+
+@rule('R138', 'a role read from a tree branch has its alignment suffix split off before the model is asked about it (":ARG1-of~e.3" does not END in -of)')
+def r138(ctx: Ctx) -> RuleReport:
+    from ..cfg import reaching_defs
+    rep = RuleReport('R138', r138.title, floor=2)
+    for mod in ('penman.layout', 'penman.transform', 'penman.tree', 'penman._format'):
+        m = ctx.repo.module(mod)
+        for fi in [f for f in ctx.repo.all_functions() if f.module is m]:
+            calls = [c for c in walk_local(fi.node) if isinstance(c, ast.Call) and isinstance(c.func, ast.Attribute) and c.func.attr in MODEL_ROLE_PREDICATES
+                     and len(c.args) >= 1 and isinstance(c.args[0], ast.Name)]
+            if not calls:
+                continue
+            pm = ctx.repo.parent_map(fi.node)
+            cfg = rd = None
+            for c in calls:
+                r = c.args[0].id
+                key = f'{fi.fq}: {norm(c)[:50]} is asked about a role without its alignment suffix'
+                # inside a comprehension over the branches?
+                comp = None
+                x = c
+                while id(x) in pm and not isinstance(x, ast.stmt):
+                    x = pm[id(x)]
+                    if isinstance(x, (ast.GeneratorExp, ast.ListComp, ast.SetComp, ast.DictComp)):
+                        for g in x.generators:
+                            if r in _branch_role_names(fi, g):
+                                comp = x
+                if comp is not None:
+                    rep.violation(key, fi.loc(c), f'`{r}` is the role of a branch exactly as the tree holds it (`{norm(comp)[:60]}`): a role alignment is still attached, so for '
+                                  f'":ARG1-of~e.3" the model answers for a role that does not end in -of. The inverted edge is not recognised: it is not deinverted and is '
+                                  f'reported as an attribute ("(a / alpha :ARG0 (b / beta) :ARG1-of~e.3 b)" keeps the triple (a :ARG1-of b))')
+                    continue
+                if cfg is None:
+                    cfg = CFG(fi.node)
+                    rd = reaching_defs(cfg, fi.params)
+                st = x
+                try:
+                    nid = owner_node(cfg, pm, c)
+                except AnalysisError:
+                    continue
+                defs = rd.get(nid, {}).get(r, frozenset())
+                raw, stripped = [], []
+                for d in defs:
+                    nd = cfg.nodes[d]
+                    if nd.kind == 'for' and r in _branch_role_names(fi, nd.ast):
+                        raw.append(nd)
+                    elif nd.kind == 'stmt' and isinstance(nd.ast, ast.Assign) and isinstance(nd.ast.value, ast.Call) and (
+                            norm(nd.ast.value.func) == '_process_role' or (isinstance(nd.ast.value.func, ast.Attribute) and nd.ast.value.func.attr in ('partition', 'split', 'rpartition')
+                                                                            and nd.ast.value.args and try_fold(nd.ast.value.args[0]) == (True, '~'))):
+                        stripped.append(nd)
+                if raw:
+                    # a role that has been tested to contain no "~" needs no stripping: `elif '~' in role: role, _, aln = role.partition('~')`
+                    tilde_conds = {nd.id for nd in cfg.nodes if nd.kind == 'cond' and norm(nd.ast) in (f"'~' in {r}", f"'~' not in {r}")}
+                    strip_nodes = {nd.id for nd in cfg.nodes if nd.kind == 'stmt' and isinstance(nd.ast, ast.Assign) and r in assigned_names(nd.ast)}
+                    if tilde_conds and all(cfg.path_avoiding([(rn.id, 'T')], {nid}, lambda nd: nd.id in tilde_conds or nd.id in strip_nodes) is None for rn in raw):
+                        rep.ok(key, fi.loc(c), f'{r} is split at "~" whenever it contains one')
+                        continue
+                if raw:
+                    rep.violation(key, fi.loc(c), f'`{r}` can still be the role exactly as the branch holds it (bound by `{norm(raw[0].ast).splitlines()[0][:50]}`, not yet passed through '
+                                  f'_process_role / partition("~")): a role alignment is still attached, so for ":ARG1-of~e.3" the model answers for a role that does not end in -of. '
+                                  f'The inverted edge is not recognised: it is not deinverted and is reported as an attribute')
+                elif stripped and len(stripped) == len(defs):
+                    rep.ok(key, fi.loc(c), f'{r} comes from {norm(stripped[0].ast)[:50]}')
     return rep
